@@ -18,6 +18,8 @@
     - [d_nil_validator]: a rule contract that cannot be instantiated yields a typed-nil validator,
       dereferenced inside the proof goroutine;
     - [d_evm_interchain_norecover]: [evmInterchain] calls [InvokeBVM] directly, not through [Run];
+    - [d_code_revert_reenters]: undoing a CODE write calls the journaling setter while the changer's
+      lock is held: a successful XVM deployment whose fee cannot be paid wedges the executor (Hang);
     - [d_nil_to] / [d_nil_from]: a funded native transfer with a nil To, resp. any transaction with
       a nil From, makes the ledger dereference the nil address in the executor goroutine (such
       transactions are refused by the API admission check, but not by block execution).
@@ -38,14 +40,15 @@ Record dcfg := {
   d_nil_validator : bool;
   d_evm_interchain_norecover : bool;
   d_nil_to : bool;
-  d_nil_from : bool
+  d_nil_from : bool;
+  d_code_revert_reenters : bool
 }.
 Definition dcfg_fixed : dcfg :=
   {| d_promoted_dispatch := false; d_evm_wipes_revisions := false; d_checkproof_nil_err := false;
-     d_nil_validator := false; d_evm_interchain_norecover := false; d_nil_to := false; d_nil_from := false |}.
+     d_nil_validator := false; d_evm_interchain_norecover := false; d_nil_to := false; d_nil_from := false; d_code_revert_reenters := false |}.
 Definition dcfg_faithful : dcfg :=
   {| d_promoted_dispatch := true; d_evm_wipes_revisions := true; d_checkproof_nil_err := true;
-     d_nil_validator := true; d_evm_interchain_norecover := true; d_nil_to := true; d_nil_from := true |}.
+     d_nil_validator := true; d_evm_interchain_norecover := true; d_nil_to := true; d_nil_from := true; d_code_revert_reenters := true |}.
 
 (** ------------------------------------------------------------------------------------ *)
 (** reflection *)
@@ -136,6 +139,7 @@ Inductive body :=
 | BTransfer (sufficient : option bool)
 | BWrongVm
 | BXvm (ok : option bool)    (* wasm instantiate / run: returns a result or an error *)
+| BXvmDeploy (ok : bool)     (* XVM deployment: module instantiates (code and nonce written) or not *)
 | BBvm (c : bvm_call)
 | BIbtp (beh : behaviour)
 | BEth (evm_ok : bool) (interbroker_log : bool) (c : bvm_call)
@@ -228,6 +232,10 @@ Definition apply_dtx (c : dcfg) (invalid : bool) (t : dtx) : outcome (option boo
        | BOpaque => Ret None
        | BTransfer ok => Ret (and_fee ok (dt_fee_ok t))
        | BXvm ok => Ret (and_fee ok (dt_fee_ok t))
+       | BXvmDeploy ok =>
+           (* an unaffordable fee reverts the deployment, i.e. undoes a code write *)
+           if ok && negb (dt_fee_ok t) && d_code_revert_reenters c then Hang
+           else Ret (Some (ok && dt_fee_ok t))
        | BIbtp beh =>
            Ret (and_fee (match beh with BOk => Some true | BErr | BPanic => Some false | BUnknown => None end)
                         (dt_fee_ok t))
